@@ -64,52 +64,58 @@ theorem output_wellformed_events (pref : List (Str × Str)) (hpref : prefOK pref
   rw [resolve_flatten pref hpref _ h]; rfl
 
 /-- **The reader's tokenizer is a left inverse of the serializer's text** on
-    element content in tokenizer normal form (`bodyOK`: names, attribute values,
-    text, comments, PIs, CDATA sections the XML syntax can express; no `Markup`
-    text; character data not adjacent to character data): the text is produced
-    (no exception) and is read back as the same events (`None` attribute values
-    as empty strings). -/
-theorem tokenizer_inverts_serializer (fs : List FEv) (h : bodyOK fs = true) :
-    ∃ out, serRun SerSt.init fs = some out ∧ tokenize out = some (fs.map normF) :=
-  tokenize_serRun fs h
+    whole documents in tokenizer normal form (`docTextOK`: an optional XML
+    declaration, at most one DOCTYPE, names, attribute values, text, comments,
+    PIs, CDATA sections the XML syntax can express; no `Markup` text; character
+    data not adjacent to character data): the text is produced (no exception)
+    and is read back as the same events (`None` attribute values as empty
+    strings; the line breaks the serializer writes after the declaration and
+    the DOCTYPE appear as white-space tokens, `tokOf`). -/
+theorem tokenizer_inverts_serializer (fs : List FEv) (h : docTextOK fs = true) :
+    ∃ out, serRun SerSt.init fs = some out ∧ tokenize out = some (tokOf fs) :=
+  tokenize_doc fs h
 
 /-- **xml_roundtrip (text level), partial.**  For every well-nested stream in
-    `docOK` whose flattened form is element content the text syntax can express
-    (`bodyOK`), the serializer produces a text and the XML reader — tokenizer,
-    reference decoding, attribute-value and end-of-line normalisation, namespace
+    `docOK` whose flattened form the text syntax can express (`docTextOK`), the
+    serializer produces a text and the XML reader — end-of-line and
+    attribute-value normalisation, tokenizer, reference decoding, namespace
     resolution, well-formedness checks — reads from it exactly the events the
-    stream denotes.
+    stream denotes: same qualified names, attribute lists, character data,
+    comments, PIs, CDATA sections, XML declaration and DOCTYPE.
 
     Full statement (`xml_roundtrip`): the same for every stream the parser
     produces from a well-formed document and every builder stream, under every
-    encoding.  Missing here: (a) the prolog — XML declaration and DOCTYPE are
-    outside `bodyOK` (their token lemmas are not proved); (b) adjacent TEXT
-    events (builder streams; the parser never produces them) need a merging
-    lemma; (c) `bodyOK` is asked of the flattener's *output* (names with
-    prefixes), not derived from conditions on the input names and prefixes;
-    (d) the composition with `encode` over whole documents (proved for character
-    data: `encode_roundtrip_text/_attr`).  All four are exercised by the oracle
-    on the real code and by the correspondence stream `read`. -/
+    encoding.  Missing here: (a) adjacent TEXT events (builder streams; the
+    parser never produces them) need a merging lemma; (b) `docTextOK` is asked
+    of the flattener's *output* (names with prefixes), not derived from
+    conditions on the input names and prefixes; (c) the composition with
+    `encode` over whole documents (proved for character data:
+    `encode_roundtrip_text/_attr`).  All three are exercised by the oracle on
+    the real code and by the correspondence stream `read`. -/
 theorem xml_roundtrip_partial (pref : List (Str × Str)) (hpref : prefOK pref = true) (s : Stream)
     (hn : WellNested s) (h : docOK (emptyTag s) = true)
-    (hb : bodyOK (flatten pref (emptyTag s)) = true) :
+    (hb : docTextOK (flatten pref (emptyTag s)) = true) :
     ∃ out, serRun SerSt.init (flatten pref (emptyTag s)) = some out ∧
       Reader.read out = some (canonS s) := by
-  obtain ⟨out, h1, h2⟩ := tokenize_serRun _ hb
+  obtain ⟨out, h1, h2⟩ := tokenize_doc _ hb
   refine ⟨out, h1, ?_⟩
   unfold Reader.read
   rw [h2]
+  simp only [Option.bind_some]
+  rw [resolve_tokOf]
   exact xml_roundtrip_events pref hpref s hn h
 
-/-- a namespaced document with mixed content is inside both hypotheses, and the
-    text it is about is the expected one -/
+/-- a namespaced document with declaration, DOCTYPE and mixed content is inside
+    all hypotheses, and the text it is about exists -/
 example :
     let s : Stream :=
-      [.startNs [] ['u'], .start ⟨['u'], ['a']⟩ [(⟨[], ['x']⟩, ['1', '"', '<'])],
+      [.xmlDecl ['1', '.', '0'] (some ['u', 't', 'f', '-', '8']) (-1), .comment ['c'],
+       .doctype ['a'] (some ['-', '/', '/', 'X']) (some ['x', '.', 'd', 't', 'd']),
+       .startNs [] ['u'], .start ⟨['u'], ['a']⟩ [(⟨[], ['x']⟩, ['1', '"', '<'])],
        .text ['t', '&'] false, .comment ['c'], .startCdata, .text ['<', 'z'] false, .endCdata,
        .start ⟨['v'], ['b']⟩ [], .end_ ⟨['v'], ['b']⟩, .pi ['p'] ['d'],
        .end_ ⟨['u'], ['a']⟩, .endNs []]
-    WellNested s ∧ docOK (emptyTag s) = true ∧ bodyOK (flatten defaultPref (emptyTag s)) = true ∧
+    WellNested s ∧ docOK (emptyTag s) = true ∧ docTextOK (flatten defaultPref (emptyTag s)) = true ∧
     (serialize s).isSome = true := by
   refine ⟨by decide, by decide, by decide, by decide⟩
 
